@@ -920,3 +920,9 @@ pub(crate) fn get_amd_ordering<T: FloatT>(
 #[path = "test.rs"]
 #[cfg(test)]
 mod test;
+
+// verification-only hooks (see /verif); compiled only under the guard cfg
+#[cfg(oxfordcontrol_clarabel_rs_verif)]
+#[path = "verif_hooks.rs"]
+#[allow(missing_docs)]
+pub mod verif_hooks;
